@@ -30,6 +30,14 @@ def e2_scripts(rnd, nbuf, maxlen):
         yield sc
 
 
+def big_scripts(rnd, quick):
+    """buffers of 64 KiB and beyond (a length counter narrower than size_t shows only there)"""
+    sc = []
+    for n in ([65534, 65536, 65538, 70000] if quick else [32768, 65534, 65536, 65538, 70000, 131072, 131074, 200000, 262146]):
+        sc.append('crcbig %d %d %d %d' % (rnd.choice([0, 0xFFFF, rnd.randint(0, 65535)]), n, rnd.choice([1, 7, 251]), rnd.randint(0, 255)))
+    return [sc]
+
+
 def run(tier):
     v = vf.Verdict('C16', tier)
     vf.build()
@@ -70,7 +78,7 @@ def run(tier):
     v.notes['e1'] = dict(table_entries=65536, step_pairs_swept=1 << 24, two_octet_buffers=pairs2, single_words=pairs2,
                          tlc_transitions_checked=r.generated)
     vf.trace_flow(v, 'Crc16Trace.tla', 'Crc16Trace.cfg', 'crc',
-                  e2_scripts(rnd, 150 if quick else 1500, 1024 if quick else 4096), 'crctrace')
+                  list(e2_scripts(rnd, 150 if quick else 1500, 1024 if quick else 4096)) + big_scripts(rnd, quick), 'crctrace')
     v.cov['rule'] = ('E0: TLC checks table form and xor law against the bit-serial definition on all 65536 states x the configured octets. '
                      'E1: library update step on all 2^24 (state, octet) pairs vs E0[c xor d] from TLC; all two-octet buffers and single words '
                      'from every stride-th state. E2: random buffers (each split at every position inside the adapter) and word buffers '
